@@ -56,7 +56,7 @@ func subRun(sc *Scenario, tape *core.Tape) (*World, core.Status, []string) {
 
 // genExchange draws one fault-free call with plain delivery (the recorded
 // exchange).
-func genExchange(t *core.Tape, maxMsgs int, small bool) *Scenario {
+func genExchange(t *core.Tape, maxMsgs int, small, oversize bool) *Scenario {
 	sc := &Scenario{Notes: map[string]int{}}
 	h := genHandlerCfg(t)
 	c := genClientCfg(t)
@@ -108,6 +108,16 @@ func genExchange(t *core.Tape, maxMsgs int, small bool) *Scenario {
 			p.HProg = append(p.HProg, HOp{Op: "send", Arg: i})
 		}
 		p.HProg = append(p.HProg, HOp{Op: "settrl"})
+	}
+	if oversize && p.Kind == KBidi && len(p.ReqMsgs) >= 2 && t.Bool(1, 2, "oversize.midstream") {
+		// a read limit on the handler, an over-limit message in the middle of
+		// the request stream, and a handler that carries on receiving after
+		// the rejection: what it sees afterwards must not depend on how the
+		// bytes were segmented either
+		sc.Handlers[0].ReadMax = 8
+		p.ReqMsgs[len(p.ReqMsgs)/2] = t.Bytes(20+t.Choose(200, "oversize.n"), 2, "oversize")
+		p.KeepReceiving = true
+		sc.Notes["oversize_midstream"]++
 	}
 	if t.Bool(1, 4, "fail") {
 		p.HErr = genErrPlan(t, sc.Notes, p.bin)
@@ -172,6 +182,7 @@ func clientOutcome(o *CallObs) outcome {
 
 func handlerOutcome(o *CallObs) outcome {
 	out := outcome{Msgs: o.H.Recv, Entered: o.H.Entered}
+	out.Meta = strings.Join(o.H.RecvErrs, "|")
 	if o.H.RecvEndSet && o.H.RecvEnd != nil {
 		if errors.Is(o.H.RecvEnd, io.EOF) {
 			out.RecvEnd = "EOF"
@@ -379,7 +390,7 @@ func directC03(tt *testing.T, tape *core.Tape, tier string, r *RunResult) {
 		exhaustiveMax = 13
 	}
 	small := tape.Bool(1, 2, "small.bodies")
-	sc := genExchange(tape, 3, small)
+	sc := genExchange(tape, 3, small, true)
 	sc.Prop = "C03"
 	rec := record(tape, sc, r)
 	if rec == nil {
@@ -515,7 +526,7 @@ func isPrefixOf(got, all [][]byte) bool {
 
 func directC04(tt *testing.T, tape *core.Tape, tier string, r *RunResult) {
 	small := tape.Bool(1, 2, "small.bodies")
-	sc := genExchange(tape, 3, small)
+	sc := genExchange(tape, 3, small, false)
 	sc.Prop = "C04"
 	rec := record(tape, sc, r)
 	if rec == nil {
